@@ -236,14 +236,17 @@ CLAIMED.update({
         engine="Saem", category="model_checking",
         text=("TLC checks TempStart, TempFloor, TempMonotone, TempOnlyAtBoundaries, TempOneAfterAnnealing, NoAnnealingIsOne, "
               "AcceptedCompletes and Termination of specs/Saem.tla with the temperature as an exact rational over every "
-              "annealing configuration with n_iter <= 12, <= 6 plateaus and five initial temperatures; sampled configurations "
+              "annealing configuration with n_iter <= 12, <= 6 plateaus and five initial temperatures (plus DecrementsClosedForm); for "
+              "ARBITRARY run lengths, annealing lengths, plateau counts and initial temperatures > 1 Apalache discharges the inductive "
+              "invariant of specs/AnnealInd.tla (decrements = floor(min(k, nAnn) / period)) and its consequences (temperature exactly "
+              "one after the annealing phase, never below one, never rising), a deliberately false invariant being refuted; sampled configurations "
               "are run as real fits (a quarter of them as two consecutive runs of one algorithm object) and the temperature after every iteration (and the refusal / completion of the "
               "configuration) is validated by TLC against SaemTrace.tla; proposal scales: Sampler.tla StdEnvelope and the "
               "recorded adaptation of real samplers judged with the CONFIGURED (non-default, different per sampler family) window "
               "length, target band and factor."),
         note=("Float temperature compared with the exact rational within 8*P ulps and literally 1.0 where the specification "
               "says 1. A single plateau is the documented degenerate scheme."),
-        technique="TLA+ spec + TLC exhaustive; code->spec trace validation of real fits",
+        technique="TLA+ spec + TLC exhaustive (+ Apalache inductive invariant for unbounded parameters); code->spec trace validation of real fits",
         design_ref="4/C19, 3.3, 3.2"),
 })
 
